@@ -47,6 +47,7 @@ def main():
     ap.add_argument('--det', type=int, default=0)
     ap.add_argument('--no-minimise', action='store_true')
     ap.add_argument('--extra-shard', default=None)
+    ap.add_argument('--prelude', type=int, default=-1)
     args = ap.parse_args()
 
     proto = os.fdopen(os.dup(1), 'w')
@@ -136,6 +137,16 @@ def main():
     if args.mode == 'replay':
         with open(args.replay) as f:
             rp = json.load(f)
+        if args.prelude >= 0:
+            # the violation needs the process history of the world that found it (module-level state left
+            # by earlier in-process runs): re-create it deterministically by executing those runs first
+            for r in range(0, args.prelude + 1):
+                try:
+                    cfg_, ops_ = gen(r)
+                    mod.execute(cfg_, ops_, dict(env))
+                except BaseException:
+                    pass
+            out['prelude_runs'] = args.prelude + 1
         res = chain(rp['config'], rp['ops'], rp.get('variant'))
         out['replay'] = res
         proto.write(json.dumps(out, default=str))
@@ -272,6 +283,8 @@ def main():
                 json.dump({'property': args.prop, 'tier': args.tier, 'verif_seed': args.seed,
                            'world': {'index': args.world, 'hashseed': env['hashseed']},
                            'run': x['run'], 'config': cfg, 'ops': min_ops,
+                           'prelude_upto': (rs[-1] if (not use_fork and rs[-1] < EXTRA_BASE) else -1),
+                           'needs_prelude': False,
                            'original_ops': ops,
                            'violation': {'oracle': fv.get('oracle'), 'detail': fv.get('detail'),
                                          'sig': fv.get('sig'), 'final_sig': final_sig,
